@@ -7,7 +7,8 @@
 //   cfg  = [signal; queue; storage; items sizer; capacity; wait_for_result; qbatch?; qmin; qmax; batcher?; bmin; bmax; retry]
 //   outs = scripted outcome of each pusher call, in call order: (0 ok | 1 transient | 2 permanent | 3 partial k | 4 hang, k)
 //   ops  = (0,[n]) one Send then quiescence | (1,ns) Sends while the pusher gate is closed, gauges read, gate opened,
-//          quiescence | (2,[]) the flush timer fires
+//          quiescence | (2,[]) the flush timer fires | (3,ns) last op: Sends while the gate is closed, then Shutdown with a
+//          context that expires while the backend is still blocked; the gate is opened only afterwards
 // The schedule is forced to the sequential one of the model: one consumer, one batch worker, quiescence
 // between operations, detected by polling the harness' own tally and the component's state under its
 // own mutexes (accepted items = finished + parked in the current batch; memory queue size = parked size).
@@ -409,6 +410,7 @@ func vC19RunExp(_ *testing.T, cfg vECfg, outs []vEOut, ops []vEOp) vExpObs {
 			}
 		}
 	}
+	var pendingGate chan struct{}
 	for i, op := range ops {
 		if isHung() {
 			// an export sits in the back-off wait until shutdown: the history ends here (the
@@ -453,6 +455,33 @@ func vC19RunExp(_ *testing.T, cfg vECfg, outs []vEOut, ops []vEOp) vExpObs {
 			p.mu.Unlock()
 			close(g)
 			quiesce()
+		case 3:
+			// as a burst, but the gate stays closed: Shutdown is called while the backend is still blocked
+			g := make(chan struct{})
+			p.mu.Lock()
+			p.gate = g
+			p.entered = 0
+			p.mu.Unlock()
+			first := true
+			for _, n := range op.ns {
+				before := accepted
+				send(n)
+				if cfg.effStorage() && first && accepted > before && !isHung() {
+					first = false
+					dl := time.Now().Add(60 * time.Second)
+					for {
+						p.mu.Lock()
+						e := p.entered
+						p.mu.Unlock()
+						if e > 0 || time.Now().After(dl) {
+							break
+						}
+						time.Sleep(200 * time.Microsecond)
+					}
+				}
+			}
+			readGauges()
+			pendingGate = g
 		default:
 			if qb != nil && !isHung() {
 				queuebatch.VerifC19FlushTimer(qb)
@@ -465,7 +494,21 @@ func vC19RunExp(_ *testing.T, cfg vECfg, outs []vEOut, ops []vEOp) vExpObs {
 	p.down = true
 	p.mu.Unlock()
 	done := make(chan error, 1)
-	go func() { done <- be.Shutdown(context.Background()) }()
+	if pendingGate != nil {
+		// Shutdown with a context that expires while requests are still queued behind the blocked backend;
+		// the backend is released only after the context has expired
+		sctx, cancel := context.WithTimeout(context.Background(), 30*time.Millisecond)
+		defer cancel()
+		go func() { done <- be.Shutdown(sctx) }()
+		<-sctx.Done()
+		time.Sleep(20 * time.Millisecond)
+		p.mu.Lock()
+		p.gate = nil
+		p.mu.Unlock()
+		close(pendingGate)
+	} else {
+		go func() { done <- be.Shutdown(context.Background()) }()
+	}
 	select {
 	case <-done:
 	case <-time.After(60 * time.Second):
@@ -481,7 +524,17 @@ func vC19RunExp(_ *testing.T, cfg vECfg, outs []vEOut, ops []vEOp) vExpObs {
 		p.shutItems += p.hungItems
 	}
 	p.mu.Unlock()
-	obs.tel = vC19Read(tel)
+	obs.tel = vC19Read(tel) // the counters at the moment Shutdown returns
+	if pendingGate != nil && !isHung() {
+		// ... and nothing may move afterwards: whatever was queued has been exported (or is stored) by now
+		if !cfg.effStorage() {
+			quiesce() // (a persistent queue keeps its unread requests: nothing to wait for)
+		}
+		time.Sleep(5 * time.Millisecond)
+		if later := vC19Read(tel); later.vec != obs.tel.vec && obs.problem == "" {
+			obs.problem = "counters still move after Shutdown returned"
+		}
+	}
 	if cfg.effStorage() {
 		cl, _ := ext.GetClient(context.Background(), component.KindExporter, set.ID, vC19Signals[cfg.sig].String())
 		for i := 0; i < nsent; i++ {
@@ -496,6 +549,12 @@ func vC19RunExp(_ *testing.T, cfg vECfg, outs []vEOut, ops []vEOp) vExpObs {
 
 // ---- generator ----------------------------------------------------------------------------------
 func vC19GenExp(rng *vRand) (cfg vECfg, outs []vEOut, ops []vEOp, class string) {
+	out0 := ""
+	defer func() {
+		if out0 != "" {
+			class += "+" + out0
+		}
+	}()
 	cfg.sig = rng.Intn(3)
 	cfg.telMode = vC19TelMode(rng)
 	cfg.badMarshal = -1
@@ -539,9 +598,8 @@ func vC19GenExp(rng *vRand) (cfg vECfg, outs []vEOut, ops []vEOp, class string) 
 			cfg.queue, cfg.wfr = true, true
 			cfg.capacity = 1 + rng.Intn(5)
 		}
-		if rng.Intn(2) == 0 {
-			failShare = 0 // half of them without any failing export (outside the C19-WFR region)
-		}
+		// (failing exports here are the regression stream of the repaired C19-WFR: the Send returns the export's
+		// error, send_failed moves, enqueue_failed must not)
 	case 5:
 		class = "persistent"
 		cfg.queue, cfg.storage = true, true
@@ -563,16 +621,26 @@ func vC19GenExp(rng *vRand) (cfg vECfg, outs []vEOut, ops []vEOp, class string) 
 	}
 	if cfg.qbatch || cfg.batcher {
 		mn, mx := 0, 0
-		switch rng.Intn(4) {
-		case 0:
+		switch rng.Intn(9) {
+		case 0, 1:
 			mn = 5 + rng.Intn(20)
-		case 1:
+		case 2, 3:
 			mn = 5 + rng.Intn(20)
 			mx = mn + rng.Intn(15)
-		case 2:
+		case 4, 5:
 			mx = 3 + rng.Intn(15)
+		case 6:
+			// min_size above max_size: rejected by Validate, accepted by the Go API; the only way a parked batch is
+			// already at max_size, so that nothing of the next request fits beside it (batcher: first result holds
+			// none of the new request)
+			mx = 3 + rng.Intn(6)
+			mn = mx + 1 + rng.Intn(6)
+			out0 = "min>max"
 		}
-		if class == "persistent+batcher" {
+		if class == "persistent+batcher" || class == "wait-for-result" {
+			// wait_for_result uses the REAL flush timer: with a split request the timer's flush of the parked
+			// last part races with the consumer's flushes of the other parts for the single worker, so the order
+			// in which the scripted outcomes are consumed would depend on timing: no splitting there
 			mx = 0
 		}
 		if cfg.qbatch {
@@ -646,6 +714,16 @@ func vC19GenExp(rng *vRand) (cfg vECfg, outs []vEOut, ops []vEOp, class string) 
 			ops = append(ops, vEOp{2, nil})
 		}
 	}
+	if allowBurst && class != "persistent+batcher" && class != "wait-for-result" && hangAt < 0 && rng.Intn(4) == 0 {
+		// the history ends with a burst behind a blocked backend and a Shutdown whose context expires meanwhile
+		m := 2 + rng.Intn(5)
+		ns := make([]int, m)
+		for j := range ns {
+			ns[j] = small()
+		}
+		ops = append(ops, vEOp{3, ns})
+		nexports += m + 2
+	}
 	// the script: per pusher call; the hang (if any) is placed where the exports of op hangAt begin
 	nouts := nexports + rng.Intn(4)
 	retries := 0
@@ -701,7 +779,7 @@ func vC19ExpTerm(cfg vECfg, outs []vEOut, ops []vEOp, o vExpObs) string {
 		gs[i] = vZ(g)
 	}
 	capG := o.capGauge
-	return fmt.Sprintf("CExp %s %s %s %s %s %s", cfg.term(), vList(os), vList(ps), vC19Vec(o.tel.vec), vList(gs),
+	return fmt.Sprintf("(CExp %s %s %s %s %s %s)", cfg.term(), vList(os), vList(ps), vC19Vec(o.tel.vec), vList(gs),
 		vList(append([]string{vZ(capG), vZ(o.stored)}, func() []string {
 			r := make([]string, len(o.sends))
 			for i, k := range o.sends {
@@ -740,6 +818,11 @@ func vC19ExpOracle(out *vOut, cfg vECfg, term string, o vExpObs) {
 	p := o.p
 	desc := fmt.Sprintf("tracer_mode=%d sent=%d send_failed=%d enqueue_failed=%d offered=%d stored=%d | truth: ok=%d failed=%d refused=%d (gave_up_blocked=%d) shutdown_interrupted=%d wfr_failed=%d storage=%v wfr=%v",
 		cfg.telMode, sent, failed, enq, o.offered, o.stored, p.okItems, p.errItems, o.refused, o.gaveUp, p.shutItems, o.wfrFailed, cfg.effStorage(), cfg.effWFR())
+	if o.problem != "" && len(o.problem) > 13 && o.problem[:13] == "no-quiescence" && lhs != rhs {
+		// items that were taken and never came out: report the imbalance itself
+		out.Oracle("exporter-imbalance", term, fmt.Sprintf("excess=%d (%s) | %s", lhs-rhs, o.problem, desc))
+		return
+	}
 	if o.problem != "" {
 		kind := "exporter-harness-problem"
 		if len(o.problem) > 5 && o.problem[:5] == "gauge" {
@@ -766,13 +849,6 @@ func vC19ExpOracle(out *vOut, cfg vECfg, term string, o vExpObs) {
 		out.Stat("known_region_S2", 1)
 		return
 	}
-	// C19-WFR: wait_for_result: a failed export is counted send_failed by the obs-report sender AND
-	// enqueue_failed by the obs queue (the Send returned the export's error)
-	if cfg.effWFR() && !cfg.effStorage() && o.wfrFailed > 0 && partsOK && enq == o.refused+o.wfrFailed && lhs-rhs == o.wfrFailed {
-		out.Oracle("exporter-balance-WFR", term, fmt.Sprintf("wait_for_result: %d items of failed exports counted send_failed and enqueue_failed; excess=%d | %s", o.wfrFailed, lhs-rhs, desc))
-		out.Stat("known_region_WFR", 1)
-		return
-	}
 	out.Oracle("exporter-imbalance", term, fmt.Sprintf("excess=%d | %s", lhs-rhs, desc))
 }
 
@@ -792,10 +868,11 @@ func TestVerifC19Exp(t *testing.T) {
 		c, o, p, cl := vC19GenExp(rng)
 		jobs[i] = job{c, o, p, cl}
 	}
-	// replay of the recorded witnesses (C19/Proofs4.v s2_refuted_l, wfr_refuted_l; probes/s2_probe_test.go)
+	// replay of the recorded S2 witness (C19/Proofs4.v s2_refuted_l; probes/s2_probe_test.go) and the regression stream of
+	// the repaired C19-WFR (wfr_regression_l: batcher without a queue, permanent error: enqueue_failed must stay 0)
 	jobs = append([]job{
 		{vECfg{sig: 2, queue: true, storage: true, capacity: 10, retry: true, badMarshal: -1}, []vEOut{{4, 0}}, []vEOp{{0, []int{5}}}, "witness-S2"},
-		{vECfg{sig: 2, batcher: true, bmin: 100, badMarshal: -1}, []vEOut{{2, 0}}, []vEOp{{0, []int{5}}}, "witness-WFR"},
+		{vECfg{sig: 2, batcher: true, bmin: 100, badMarshal: -1}, []vEOut{{2, 0}}, []vEOp{{0, []int{5}}}, "regression-WFR"},
 		// C19/Proofs8.v persistent_size_undercounts_l: 3 gated Sends on a persistent queue, the size gauge reads 2
 		{vECfg{sig: 2, queue: true, storage: true, capacity: 5, telMode: 1, badMarshal: -1}, nil, []vEOp{{1, []int{1, 1, 1}}}, "witness-PQ-size"},
 	}, jobs...)
